@@ -138,23 +138,43 @@ def run(ctx):
     quick = ctx.tier == 'quick'
     # (i) LearnSPN under scripted splitters (every oracle behaviour incl. degenerate ones): structure valid whatever the splitters answer
     scen = L.gen_scenarios(60 if quick else 600, ctx.seed * 31 + 5)
+    front = L.is_front(LS)
     for sc in scen[:: (2 if quick else 1)]:
         data, s, min_rows, min_cols = L.build(sc)
         n_rows, n_cols = data.shape
+        # one distinct leaf class and domain per column: every leaf must be fitted with the family / domain of its own columns
+        classes = [type(f'RecLeaf{c}', (L.RecLeaf,), {}) for c in range(n_cols)]
+        doms = [(c, c + 1) for c in range(n_cols)]
+        wrong = []
+        inner_leaf = s.learn_leaf
+
+        def learn_leaf(d, dists, dms, scope, **kw):
+            if list(dists) != [classes[v] for v in scope] or list(dms) != [doms[v] for v in scope]:
+                wrong.append((list(scope), [getattr(x, '__name__', str(x)) for x in dists], list(dms)))
+            return inner_leaf(d, dists, dms, scope, **kw)
+        rep = dict(kind='c04-scripted', scenario=dict(sc, pat=[list(p) for p in sc['pat']] if 'pat' in sc else None))
         LS.np = L.NpProxy(s.log)
         try:
             try:
-                root = LS.learn_spn(data, [L.RecLeaf] * n_cols, [(0, 1)] * n_cols, learn_leaf=s.learn_leaf, split_rows=s.split_rows,
+                root = LS.learn_spn(data, classes, doms, learn_leaf=learn_leaf, split_rows=s.split_rows,
                                     split_cols=s.split_cols, min_rows_slice=min_rows, min_cols_slice=min_cols, random_state=0, verbose=False)
             finally:
                 LS.np = np
-        except Exception:
-            ctx.count('learner-did-not-return')
+        except Exception as ex:
+            # the splitters answer legitimately (one label per row / column): the queue machine returns on every such script
+            # (learn_final_valid), so an exception here means the code no longer follows the machine
+            ctx.count('scripted-learner-raised')
+            ctx.violation('c04-scripted-learner-raises', f'learn_spn raised {type(ex).__name__}: {str(ex)[:160]} under scripted splitters although the '
+                                                         f'queue machine returns a circuit for every such script', replay=rep, found_input=False)
+            if ctx.n_new() >= 3:
+                return
             continue
         ctx.case('scripted', nontrivial_key=hashlib.sha256(json.dumps(s.log).encode()).hexdigest()[:16], sample=dict(kind='scripted', rows=n_rows, cols=n_cols))
         ctx.count('scripted-learnspn')
-        rep = dict(kind='c04-scripted', scenario=dict(sc, pat=[list(p) for p in sc['pat']] if 'pat' in sc else None))
-        if sorted(int(v) for v in root.scope) != list(range(n_cols)):
+        if wrong:
+            ctx.violation('c04-leaf-family', f'scripted LearnSPN: a leaf over columns {wrong[0][0]} was fitted with distributions {wrong[0][1]} / domains {wrong[0][2]} '
+                                             f'of other columns', replay=rep)
+        elif sorted(int(v) for v in root.scope) != list(range(n_cols)):
             ctx.violation('c04-root-scope', f'scripted LearnSPN: root scope {sorted(root.scope)}', replay=rep)
         elif getattr(root, 'children', None) and spec_verdict(root) != 'accept':
             ctx.violation('c04-invalid', f'scripted LearnSPN: returned circuit is {spec_verdict(root)}', replay=rep)
@@ -163,6 +183,14 @@ def run(ctx):
                 if isinstance(n, Sum) and (np.any(np.asarray(n.weights) <= 0) or abs(float(np.sum(n.weights)) - 1) > 1e-5):
                     ctx.violation('c04-weights', f'scripted LearnSPN: weights {np.asarray(n.weights).tolist()}', replay=rep)
                     break
+            else:
+                if ctx.driver_ok:
+                    lean = ctx.get_driver().ask(dict(op='learn', n_rows=n_rows, n_cols=n_cols, min_rows_slice=min_rows, min_cols_slice=min_cols,
+                                                     front=front, script=s.log))
+                    txt = L.render_real(root)
+                    if L.blur_unknown(lean, txt) != txt:
+                        ctx.violation('c04-machine-disagrees', f'learn_spn result differs from the queue machine\n impl : {txt[:300]}\n model: {lean[:300]}',
+                                      replay=rep, found_input=False)
         if ctx.n_new() >= 3:
             return
     # (ii) built-in row splitter x column splitter x leaf learner
@@ -215,6 +243,49 @@ def run(ctx):
         ctx.case('cont:' + dist.__name__, nontrivial_key=('cont', k), sample=dict(dist=dist.__name__, shape=[nr, nv], constant_column=((k // 4) % 2 == 0)))
         ctx.count('leaf-family:' + dist.__name__)
         validate(ctx, root, nv, rep, f'learn_estimator({dist.__name__}) {"with a constant column" if (k // 4) % 2 == 0 else ""}', discrete=False)
+        if ctx.n_new() >= 3:
+            return
+    # (iii-b) mixed leaf families / domains per column with columns that are constant inside clusters (REM_FEATURES below a column split)
+    for k in range(10 if quick else 100):
+        rs = np.random.RandomState(np_seed(ctx.sub_rng('mixed', k)))
+        nr = int(rs.choice([60, 150, 300]))
+        z = rs.randint(0, 2, size=nr)
+        cols, dists, doms = [], [], []
+        for j in range(int(rs.randint(4, 8))):
+            t = j % 3
+            if t == 0:
+                c = np.where(rs.rand(nr) < 0.15, 1 - z, z).astype(np.float32); dists.append(Bernoulli); doms.append([0, 1])
+            elif t == 1:
+                c = rs.randint(0, 3, size=nr).astype(np.float32)
+                c[z == 1] = 2.0                         # constant inside one cluster only
+                dists.append(Categorical); doms.append([0, 1, 2])
+            else:
+                c = (rs.randn(nr) + 3 * z).astype(np.float32); dists.append(Gaussian); doms.append((float(c.min()), float(c.max())))
+            cols.append(c)
+        perm = rs.permutation(len(cols))
+        X = np.stack([cols[i] for i in perm], axis=1)
+        dists = [dists[i] for i in perm]; doms = [doms[i] for i in perm]
+        rep = dict(kind='c04', learner='learn_spn-mixed', data=X.tolist(), dists=[d.__name__ for d in dists])
+        try:
+            root = learn_spn(X, dists, doms, learn_leaf='mle', split_rows='kmeans', split_cols=str(rs.choice(['rdc', 'random'])), min_rows_slice=int(rs.choice([20, 50])),
+                             min_cols_slice=2, random_state=int(rs.randint(1000)), verbose=False)
+        except Exception as ex:
+            ctx.count('learner-did-not-return:' + type(ex).__name__)
+            continue
+        ctx.case('mixed', nontrivial_key=('mixed', k), sample=dict(dists=[d.__name__ for d in dists], shape=list(X.shape)))
+        ctx.count('mixed-family-data')
+        bad = None
+        for n in S.bfs_order(root):
+            if not getattr(n, 'children', None) and len(n.scope) == 1 and not isinstance(n, (Sum, Product)):
+                want = dists[n.scope[0]]
+                if type(n) is not want:
+                    bad = f'leaf over column {n.scope[0]} is a {type(n).__name__}, the requested family is {want.__name__}'
+                elif isinstance(n, Categorical) and [int(c) for c in n.categories] != [int(c) for c in doms[n.scope[0]]]:
+                    bad = f'Categorical leaf over column {n.scope[0]} has categories {list(n.categories)}, its domain is {doms[n.scope[0]]}'
+        if bad:
+            ctx.violation('c04-leaf-family', 'learn_spn on mixed data: ' + bad, replay=rep)
+        else:
+            validate(ctx, root, X.shape[1], rep, 'learn_spn on mixed Bernoulli/Categorical/Gaussian data', discrete=False)
         if ctx.n_new() >= 3:
             return
     # (iv) classifier wrapper
